@@ -673,6 +673,55 @@ func classifyA(c CaseA) core.Class {
 		}
 	}
 	walk(&c.Schema, 0)
+	// representation classes of labels and of map / object keys
+	tc := map[string]bool{}
+	names := map[string]bool{}
+	var collectNames func(b *cfggen.BodyS)
+	collectNames = func(b *cfggen.BodyS) {
+		for _, a := range b.Attrs {
+			names[a.Name] = true
+		}
+		for i := range b.Blocks {
+			names[b.Blocks[i].Name] = true
+			if b.Blocks[i].Body != nil {
+				collectNames(b.Blocks[i].Body)
+			}
+		}
+	}
+	collectNames(&c.Schema)
+	var keysOf func(v cfggen.Val)
+	keysOf = func(v cfggen.Val) {
+		for _, e := range v.L {
+			keysOf(e)
+		}
+		for _, kv := range v.M {
+			for _, k := range cfggen.TextClasses(kv.K) {
+				tc["key-class:"+k] = true
+			}
+			keysOf(kv.V)
+		}
+	}
+	var labelsOf func(b *cfggen.BodyI)
+	labelsOf = func(b *cfggen.BodyI) {
+		for _, a := range b.Attrs {
+			keysOf(a.V)
+		}
+		for i := range b.Blocks {
+			for _, l := range b.Blocks[i].Labels {
+				for _, k := range cfggen.TextClasses(l) {
+					tc["label-class:"+k] = true
+				}
+				if names[l] {
+					tc["label-class:equals-schema-name"] = true
+				}
+			}
+			labelsOf(&b.Blocks[i].Body)
+		}
+	}
+	labelsOf(&c.Inst)
+	for k := range tc {
+		cl.Labels = append(cl.Labels, k)
+	}
 	// sibling blocks of one type that share all labels but the last
 	var sib func(b *cfggen.BodyI)
 	sib = func(b *cfggen.BodyI) {
@@ -718,7 +767,7 @@ func classifyA(c CaseA) core.Class {
 func TestC19a(t *testing.T) {
 	core.Run(t, core.Spec[CaseA]{
 		Property: "C19", Sub: "a",
-		Rule: "generated hcldec spec / gohcl struct type (attributes: string number bool list set map object tuple any; blocks: single list set tuple with 0-8 labels (BlockLabelSpec / label fields), map and object-map with 1-8 LabelNames, attrs; up to 4 sibling blocks that often share a label prefix (typically all but the last label); nesting<=3) + conforming or single-fault instance, rendered as plain native text (reference) and 2-5 forms composing: JSON syntax (own emitter from json/spec.md), shuffled items, comments/odd whitespace/CRLF, hclwrite.Format, split into 2-9 files merged with hcl.MergeFiles or with nested / incremental hcl.MergeBodies (left- and right-nested, merge of merges, base grown one body at a time; attributes in exactly one file, per-type block order kept; some bodies decoded twice), layered configurations (one base of 1-9 files and 2-3 independent overlays merged onto the same base body, all merged bodies built before any is decoded, or decoded right after building as control, each compared with its own single-file text), runs of blocks folded into dynamic blocks (tuple/object/variable for_each, labels, custom iterator, nested, inherited iterator) expanded with dynblock.Expand. Oracle: every form agrees with the reference on has-errors and on the decoded value for hcldec.Decode and gohcl.DecodeBody, and the reference of a conforming instance decodes to the instance. Non-trivial: >=1 repeated or labelled block and a form composing >=2 rewrites; distinct = (valid/faulty, nesting>=2, widest rewrite combination of the case)",
+		Rule: "generated hcldec spec / gohcl struct type (attributes: string number bool list set map object tuple any; blocks: single list set tuple with 0-8 labels (BlockLabelSpec / label fields), map and object-map with 1-8 LabelNames, attrs; labels and map keys drawn from representation classes (starting with // # /*, equal to //, with quotes, backslashes, newlines, tabs, ${ %{, dots, brackets, spaces, separators, empty, long, non-ASCII, JSON words, schema names, numeric, case variants); up to 4 sibling blocks that often share a label prefix (typically all but the last label); nesting<=3) + conforming or single-fault instance, rendered as plain native text (reference) and 2-5 forms composing: JSON syntax (own emitter from json/spec.md), shuffled items, comments/odd whitespace/CRLF, hclwrite.Format, split into 2-9 files merged with hcl.MergeFiles or with nested / incremental hcl.MergeBodies (left- and right-nested, merge of merges, base grown one body at a time; attributes in exactly one file, per-type block order kept; some bodies decoded twice), layered configurations (one base of 1-9 files and 2-3 independent overlays merged onto the same base body, all merged bodies built before any is decoded, or decoded right after building as control, each compared with its own single-file text), runs of blocks folded into dynamic blocks (tuple/object/variable for_each, labels, custom iterator, nested, inherited iterator) expanded with dynblock.Expand. Oracle: every form agrees with the reference on has-errors and on the decoded value for hcldec.Decode and gohcl.DecodeBody, and the reference of a conforming instance decodes to the instance. Non-trivial: >=1 repeated or labelled block and a form composing >=2 rewrites; distinct = (valid/faulty, nesting>=2, widest rewrite combination of the case)",
 		Gen:  genA, Check: checkA, Classify: classifyA,
 		Assumptions: []string{
 			"go-cty (conversion, number parsing, set ordering) is the trusted base of the expected values",
